@@ -868,11 +868,23 @@ fn run_op(a: &[&str]) -> R {
         },
         ["login", us, ps, uc, pc, via] => {
             let (tus, tps, tuc, tpc) = (text(us)?, text(ps)?, text(uc)?, text(pc)?);
+            // tens digit of `via`: which constructor family the CLIENT's credentials go through
+            let vian: u32 = num(via)?;
+            let via: &&str = &match vian % 10 { 0 => "0", 1 => "1", 2 => "2", 3 => "3", 4 => "4", _ => "5" };
+            let mk = |t: &String| -> Result<NormalizedString, wow_srp::error::NormalizedStringError> {
+                match vian / 10 {
+                    1 => NormalizedString::from_string(t.clone()),
+                    2 => std::convert::TryFrom::try_from(t.clone()),
+                    3 => NormalizedString::from_str(t.as_str()),
+                    4 => std::convert::TryFrom::try_from(t.as_str()),
+                    _ => NormalizedString::new(t),
+                }
+            };
             let (nus, nps, nuc, npc) = match (
                 NormalizedString::new(&tus),
                 NormalizedString::new(&tps),
-                NormalizedString::new(&tuc),
-                NormalizedString::new(&tpc),
+                mk(&tuc),
+                mk(&tpc),
             ) {
                 (Ok(a), Ok(b), Ok(c), Ok(d)) => (a, b, c, d),
                 _ => return Ok("fail credentials".into()),
